@@ -120,6 +120,10 @@ def h_clamp(e, cfg):
             Module.__init__(self)
             self.register_buffer("w", torch.zeros(2, 2))
             self.inner = neural.LinearDense((2,), (2,), 1.0, synapse=neural.DeltaCurrent.partialconstructor(1.0))
+            # a target three levels down the attribute path
+            self.mid = Module()
+            self.mid.leaf = Module()
+            self.mid.leaf.register_buffer("w", torch.zeros(2, 2))
 
         def forward(self):
             return None
@@ -128,12 +132,14 @@ def h_clamp(e, cfg):
     W = e.sym((2, 2), torch.float32, "W", lo=-10, hi=10)
     if cfg["attr"] == "w":
         m.w = W
+    elif cfg["attr"] == "mid.leaf.w":
+        m.mid.leaf.w = W
     else:
         m.inner.weight = W
     h = Clamping(m, cfg["attr"], min=lo, max=hi, as_prehook=cfg["as_prehook"])
     h.register()
     m()
-    wa = e.read(m.w if cfg["attr"] == "w" else m.inner.weight)
+    wa = e.read(m.w if cfg["attr"] == "w" else (m.mid.leaf.w if cfg["attr"] == "mid.leaf.w" else m.inner.weight))
     for v, v0 in zip(wa.reshape(-1), e.read(W).reshape(-1)):
         if lo is not None:
             e.oblige("clamp:lower", T.ge(v, K(lo)))
@@ -237,7 +243,7 @@ def checks(tier):
         for eu in (True, False):
             for pre in (False, True):
                 life.append(dict(train_update=tu, eval_update=eu, as_prehook=pre, prefix=["register"], free=(4 if th else 3), flags=True))
-    cl = [dict(min=lo, max=hi, attr=a, as_prehook=pre) for (lo, hi) in ((-1.0, 1.0), (0.0, None), (None, 0.5), (0.25, 0.3), (-1.0, 0.0), (0.0, 1.0), (None, 0.0)) for a in ("w", "inner.weight") for pre in (False, True)]
+    cl = [dict(min=lo, max=hi, attr=a, as_prehook=pre) for (lo, hi) in ((-1.0, 1.0), (0.0, None), (None, 0.5), (0.25, 0.3), (-1.0, 0.0), (0.0, 1.0), (None, 0.0)) for a in ("w", "inner.weight", "mid.leaf.w") for pre in (False, True)]
     nm = []
     for p in (1, 2, float("inf")):
         for scale in (1.0, -2.5):
@@ -253,7 +259,7 @@ BOUNDS = {
     "quick": {"programs": "all programs of 4 operations (5-6 after the fixed prefixes register / register-deregister / register-deregister-register / register-call / register-eval) over "
                           "{register, deregister, train, eval, call, manual(force, ignore_mode), delete+collect} x 4 enable-flag combinations x pre/post; "
                           "after [register] also 3-operation programs that additionally flip the trainexec / evalexec flags",
-              "clamping": "symbolic 2x2 buffer and nested Parameter, 7 bound settings (two-sided, one-sided, and limits that are exactly 0), pre/post; decided over the reals and again bit-exactly over IEEE float32 variables", "normalisation": "p in {1, 2, inf}, scale in {1, -2.5}, shapes (3,), (2,2), dims None/0/-1/(0,1)"},
+              "clamping": "symbolic 2x2 buffer, nested Parameter and a buffer three attribute levels down, 7 bound settings (two-sided, one-sided, and limits that are exactly 0), pre/post; decided over the reals and again bit-exactly over IEEE float32 variables", "normalisation": "p in {1, 2, inf}, scale in {1, -2.5}, shapes (3,), (2,2), dims None/0/-1/(0,1)"},
     "thorough": {"programs": "5 free operations"},
 }
 OUTSIDE = ["p-norms with non-integer p", "vectors whose norm lies in (0, 1e-6) (F.normalize's epsilon floor)", "garbage-collection timing is executed under CPython, not modelled",
